@@ -79,6 +79,78 @@ def gen_near(t):
         tu.add('w_vecmat_' + o, '%s& m, const %s& v' % (M3, V), '%s e(0, 0, 0, %s); e.setXYZVector(v); m = e.toMatrix33();' % (Eu, P_), o=o, k='vecmat')
     return tu
 
+ONE_ = P.pconst(1)
+
+def gen_xquat(t):
+    """extract(Quat) with extract(Matrix33) left as a call: the matrix handed over, and the matrix of the quaternion"""
+    E = ELEM[t][0]
+    Q = 'Quat<%s>' % E; M3 = 'Matrix33<%s>' % E; Eu = 'Euler<%s>' % E
+    tu = TU('c11q_' + t, header=HDR + '#include <ImathQuat.h>\n', opaque=('7extractERKNS_8Matrix33',))
+    tu.add('w_xquat', '%s& e, const %s& q' % (Eu, Q), 'e.extract(q);', k='xquat')
+    tu.add('w_qmat', '%s& m, const %s& q' % (M3, Q), 'm = q.toMatrix33();', k='aux')
+    return tu
+
+def check_xquat(rep, R, t):
+    """R11.xq: extract(Quat q) extracts from the rotation matrix of q: on every path the nine entries handed to
+    extract(Matrix33) equal q.toMatrix33() as polynomials in the components of q (so a sign-canonicalised -q is fine, the
+    conjugate - the inverse rotation - is not); that extract(Matrix33) inverts toMatrix33 is R11.rt"""
+    E, sz, lt = ELEM[t]
+    oid = 'extract(Quat)<%s>' % E
+    S, SM = R.get('w_xquat'), R.get('w_qmat')
+    if S is None or SM is None:
+        rep.ob(oid, 'R11.xq', UNDECIDED, (R.err.get('w_xquat') or R.err.get('w_qmat') or 'not analysed')[:300]); return
+    where = fn_where(S.fn)
+    try:
+        calls = [c for nm, c, ln in S.calls if '7extractERKNS_8Matrix33' in nm]
+        if len(calls) != 1:
+            rep.ob(oid, 'R11.xq', VIOLATED if not calls else UNDECIDED, '%d calls of extract(Matrix33), expected 1' % len(calls), where); return
+        call = calls[0]
+        mems = [a for a in call.args if a.ty == 'mem']
+        ents = None
+        def cells(mem):
+            # a frozen memory term, possibly behind conditionals: offset -> value (conditionals pushed into the values)
+            if mem.op == 'ite':
+                a_, b_ = cells(mem.args[1]), cells(mem.args[2])
+                if a_ is None or b_ is None or set(a_) != set(b_): return None
+                return {k: T.ite(mem.args[0], a_[k], b_[k]) for k in a_}
+            if mem.op != 'mem': return None
+            d = {}
+            a = mem.args[1:]
+            for i in range(0, len(a), 2): d[T.const_value(a[i])] = a[i + 1]
+            return d
+        for m_ in mems:
+            d = cells(m_)
+            if d is not None and all(i * sz in d for i in range(9)) and all(d[i * sz].ty == lt for i in range(9)):
+                ents = [d[i * sz] for i in range(9)]; break
+        if ents is None:
+            rep.ob(oid, 'R11.xq', UNDECIDED, 'the matrix argument of extract(Matrix33) was not recognised', where); return
+        qin = [agg.slot_in('a1', i, t) for i in range(4)]
+        want = [SM.out('a0', i * sz, sz, lt) for i in range(9)]
+        ncase = 0
+        for asg, res in PC.generic_cases(ents, P.Ctx(), enumerate_cond=lambda c: c.op == 'fcmp'):
+            ctx = P.Ctx(); ncase += 1
+            # a sign test x < 0 decided on this path fixes |x| (the select idiom -x / x is read as |x| by the term layer)
+            for c, v in asg.items():
+                if c.op == 'fcmp' and c.attr in ('olt', 'ole', 'ogt', 'oge'):
+                    for xi, ki in ((0, 1), (1, 0)):
+                        x, k = c.args[xi], c.args[ki]
+                        if k.op == 'const' and T.const_value(k) == 0 and x.op != 'const':
+                            neg = (c.attr in ('olt', 'ole')) == (xi == 0)        # the test reads "x is negative" when true
+                            isneg = neg if v else (not neg)
+                            ab = ctx.rat(T.mk('absi', None, (x,), x.ty))[0]
+                            if len(ab) == 1:
+                                (mono, coef), = ab.items()
+                                if len(mono) == 1 and mono[0][1] == 1 and coef == 1:
+                                    px = ctx.rat(x)
+                                    if px[1] == ONE_: ctx.lin[mono[0][0]] = P.pneg(px[0]) if isneg else px[0]
+            for i in range(9):
+                a_, b_ = ctx.rat(res[i]), ctx.rat(want[i])
+                if not ctx.requal(a_, b_):
+                    rep.ob(oid, 'R11.xq', VIOLATED, 'when %s the matrix handed to extract() has entry [%d][%d] = %s, q.toMatrix33() has %s: the angles are those of another rotation' % (PC.show_asg(asg) or 'always', i // 3, i % 3, P.show_rat(a_, ctx)[:120], P.show_rat(b_, ctx)[:120]), where); return
+        rep.ob(oid, 'R11.xq', HOLDS, 'the matrix handed to extract(Matrix33) is q.toMatrix33() on all %d path(s)' % ncase, where)
+    except (P.NotPoly, PC.Undecided, vg.Unsupported, OverflowError) as e:
+        rep.ob(oid, 'R11.xq', UNDECIDED, repr(e)[:300], where)
+
 def check_near(rep, R, t):
     """R11.near: the alternative candidate of nearestRotation is (pi + a, pi - a, pi + a) with the minus sign on exactly
     the component for which Euler(order).setXYZVector(.).toMatrix33() is invariant, i.e. it denotes the same rotation"""
@@ -300,7 +372,9 @@ def main(rep, ws, tier):
     tus = [gen(t, orders) for t in types]; tun = [gen_near(t) for t in types]
     pairs = reorder_pairs(tier)
     tur = [gen_reorder(t, pairs) for t in types]
-    an = Analysed(ws, tus + tun + tur, rep)
+    tuq = [gen_xquat(t) for t in types]
+    an = Analysed(ws, tus + tun + tur + tuq, rep)
+    for tq, t in zip(tuq, types): check_xquat(rep, an[tq], t)
     for tn, t in zip(tun, types):
         check_near(rep, an[tn], t)
     for tr, tu, t in zip(tur, tus, types):
